@@ -26,6 +26,9 @@ def mtime_for(policy, graph, rel, variant, hist):
         order = sorted(wsgraphs.GRAPHS[graph].keys())
         return BASE_MTIME + 1000 * (order.index(rel) + 1) + 10 * wsgraphs.variant_index(graph, rel, variant)
     n_edits = sum(1 for op in hist if op[0] == 'edit')
+    if policy == 'subsecond':
+        # successive saves within one wall-clock second (the initial file sits at the start of that second)
+        return mtime_for('content-bound', graph, rel, 'v0', []) + 0.125 * (n_edits + 1)
     return BASE_MTIME + 100000 + 10 * (n_edits + 1)
 
 
@@ -245,8 +248,8 @@ def truncation_layer(ctx, state_dirs, graph, every_offset: bool):
 
 def run(ctx):
     import rogw.tranp.bin.transpile  # noqa
-    configs = [('pair', 'content-bound'), ('chain3', 'content-bound'), ('chain3', 'monotone')] if ctx.quick else \
-        [('pair', 'content-bound'), ('pair', 'monotone'), ('chain3', 'content-bound'), ('chain3', 'monotone'), ('diamond4', 'content-bound')]
+    configs = [('pair', 'content-bound'), ('chain3', 'content-bound'), ('chain3', 'monotone'), ('pair', 'subsecond')] if ctx.quick else \
+        [('pair', 'content-bound'), ('pair', 'monotone'), ('chain3', 'content-bound'), ('chain3', 'monotone'), ('diamond4', 'content-bound'), ('pair', 'subsecond'), ('chain3', 'subsecond')]
     total = {'states': 0, 'transitions': 0, 'truncations': 0}
     per = {}
     for graph, policy in configs:
